@@ -30,9 +30,21 @@ def frontier_jobs(tier):
              "_obligation": "O3", "_covers": ["delivered"], "unwind": 60, "reset_mode": True}]
 
 
+from props import C11 as _c11
+
+
+def adddelta_jobs(tier):
+    """O2: height rule and head replacement through the real AddDelta (create + update history of the C11 harness)"""
+    return [{"id": "O2.adddelta.history", "func": "VerifH_C11_History", "conf": {"doc": 0, "fcfg": 0, "class": 2},
+             "_obligation": "O2", "_covers": ["history"], "unwind": 60},
+            {"id": "O2.adddelta.history.encrypted", "func": "VerifH_C11_History", "conf": {"doc": 1, "fcfg": 0, "class": 0},
+             "_obligation": "O2", "_covers": ["history"], "unwind": 60}]
+
+
 PROPERTY = {
     "id": "C04",
     "suites": [
+        dict(_c11.PROPERTY["suites"][0], name="adddelta", jobs=adddelta_jobs),
         {"name": "block", "pkg": "internal/core/block", "files": ["zz_verif_block.go"], "common": ["intrinsics", "kvmodel"],
          "jobs": block_jobs, "overrides": OVR, "unwind": 30},
         dict(_c02.SUITE, name="frontier", jobs=frontier_jobs),
@@ -40,5 +52,5 @@ PROPERTY = {
     "bounds": {"commits": "3 (quick) / 4 (thorough), <=2 parents, all hash orders, all downward-closed merged sets", "heads/links passed to New": "<=3, all permutations"},
     "assumptions": ["a block's link is a function of its content (synthetic CIDs inside the solver run; real ones natively in the frontier suite)", "kvmodel follows the corekv contract"],
     "outside_claim": ["'filed under the hash of its own bytes' and byte-identical genesis bytes (sha256, dag-cbor reflection)", "closure under ancestry as ensured by net.syncDAG (network, goroutines)",
-                      "AddDelta height rule beyond heads.List reporting the greatest height (AddDelta itself runs through IPLD encoding)"],
+                      "AddDelta with more than one head (the height rule is checked through AddDelta for linear field histories, and through heads.List for the greatest height)"],
 }
